@@ -13,6 +13,13 @@ FEC field = bare mask), prescribed parity / FEC targets, minimum-weight code wor
 mid-way (`algebraic_msgs`, `structured_words`).  `run_script` replays *histories* (generate / check / edit-in-place
 steps with bytes / bytearray / list / tuple / memoryview arguments) against the reference and verifies after every
 step that no object the caller holds has changed: generate and check must behave as functions of the octets.
+
+Super-codes (`subcode_patterns`, `target_patterns`, `prefix_patterns`, `two_root_families`, `sibling_words`): a checker
+that tests only a subset of the conditions that define the code (two of the three roots, two of the three parity
+octets, a wrong zero test on the syndromes) accepts every generated word and rejects every random corruption one is
+likely to draw; the wrong words it accepts are the weight-2/3 words of a larger code, and these are solved for, for every
+position triple / pair, and enumerated completely for the 2-root and 1-root super-codes.  The verdict is always the
+property's own: a generated word with one to three octets changed must be rejected.
 """
 import itertools
 import os
@@ -96,8 +103,13 @@ def unmask(word: bytes, mask: bytes) -> bytes:
 
 # ------------------------------------------------------------------------------------------------
 # structured (algebraic) inputs: code words with prescribed symbols, built with the arithmetic above only
+_INV = {}
+
+
 def gf_inv(a: int) -> int:
-    return gf_pow(a, 254)
+    if a not in _INV:
+        _INV[a] = gf_pow(a, 254)
+    return _INV[a]
 
 
 def poly_mul(a, b):
@@ -344,6 +356,433 @@ def structured_words(rng, std, n):
 
 
 # ------------------------------------------------------------------------------------------------
+# error patterns with a prescribed image under a linear map (super-codes of the code: "passes a SUBSET of the checks")
+#
+# Whatever a checker computes, a word c ^ e (c generated) is judged by what the checker sees of e.  A checker that
+# tests only SOME of the conditions that define the code accepts a strictly larger (super-)code, and the wrong words it
+# accepts are the low-weight words of that super-code: they are never met by random corruption (a 3-octet pattern that
+# vanishes at two of the three roots is one 255-member family per position triple, 1.5e-5 of all), so they are solved
+# for here, with the arithmetic of this file only.  Two linear maps GF(2^8)^12 -> GF(2^8)^3 describe the two ways a
+# checker can be written: the syndromes (e(alpha), e(alpha^2), e(alpha^3)) for "evaluate at the roots", and the
+# re-encoding difference  parity(e[:9]) ^ e[9:]  for "regenerate and compare".  Any 3 columns of either map are
+# independent (the code is MDS), so on every position triple every target has exactly one pre-image.
+def root_row(j: int):
+    """the functional e -> e(alpha^j) (octets = coefficients, highest degree first); j any integer"""
+    r = gf_pow(ALPHA, j % 255)
+    return [gf_pow(r, 11 - p) for p in range(12)]
+
+
+def _rem_rows():
+    rows = [[0] * 12 for _ in range(3)]
+    for p in range(12):
+        u = bytearray(12)
+        u[p] = 1
+        r = xor_b(ref_parity(bytes(u[:9])), bytes(u[9:]))
+        for k in range(3):
+            rows[k][p] = r[k]
+    return rows
+
+
+SYN_ROWS = [root_row(j) for j in (1, 2, 3)]
+REM_ROWS = _rem_rows()
+LINMAPS = (("syn", SYN_ROWS), ("rem", REM_ROWS))
+
+
+def unit_row(p: int):
+    return [1 if q == p else 0 for q in range(12)]
+
+
+def apply_row(row, e) -> int:
+    acc = 0
+    for c, x in zip(row, e):
+        if c and x:
+            acc ^= gf_mul(c, x)
+    return acc
+
+
+def remainder(e: bytes):
+    """what a regenerate-and-compare checker sees of a word (zero mask): parity(e[:9]) ^ e[9:]"""
+    return list(xor_b(ref_parity(bytes(e[:9])), bytes(e[9:])))
+
+
+def solve_pattern(S, eqs):
+    """the 12-octet pattern supported inside the positions S with  row . e = rhs  for every (row, rhs) of eqs
+    (len(eqs) == len(S)); None if the equations are singular on S"""
+    A = [[row[p] for p in S] for row, _ in eqs]
+    x = solve_gf(A, [rhs for _, rhs in eqs])
+    if x is None:
+        return None
+    e = [0] * 12
+    for p, v in zip(S, x):
+        e[p] = v
+    for row, rhs in eqs:
+        if apply_row(row, e) != rhs:
+            raise RuntimeError("harness arithmetic broken (solve_pattern)")
+    return bytes(e)
+
+
+def weight(e) -> int:
+    return sum(1 for x in e if x)
+
+
+ZERO_SETS = ((0,), (1,), (2,), (0, 1), (0, 2), (1, 2))  # proper non-empty subsets of the three conditions
+
+
+def zs_name(mapname, Z):
+    if mapname == "syn":
+        return "vanishes-at-" + "+".join(f"a^{z + 1}" for z in Z)
+    return "reencode-difference-zero-in-octet-" + "+".join(str(z) for z in Z)
+
+
+def subcode_patterns(rng, thorough):
+    """(pattern, label): for every position triple and each proper subset Z of the three conditions of either map a
+    pattern of weight exactly 3 that meets exactly the conditions in Z; for every position pair and each single
+    condition a pattern of weight exactly 2 that meets it; near misses at distance 1 of those."""
+    out = []
+    triples = list(itertools.combinations(range(12), 3))
+    pairs = list(itertools.combinations(range(12), 2))
+    for mapname, rows in LINMAPS:
+        for S in triples:
+            for Z in ZERO_SETS:
+                for _attempt in range(16):
+                    eqs = [(rows[k], 0 if k in Z else rng.choice((1, 255, rng.randrange(1, 256), rng.randrange(1, 256)))) for k in range(3)]
+                    e = solve_pattern(S, eqs)
+                    if e is None:
+                        raise RuntimeError("harness arithmetic broken (three columns of an MDS map are dependent)")
+                    if weight(e) == 3:
+                        break
+                else:
+                    # the re-encoding difference of a pattern inside the parity octets is the pattern itself: a zero
+                    # component there clears the octet; at the roots weight 3 is always possible
+                    if mapname == "syn":
+                        raise RuntimeError("harness arithmetic broken (no weight-3 pattern)")
+                img = [apply_row(rows[k], e) for k in range(3)]
+                if [k for k in range(3) if img[k] == 0] != list(Z) or not 1 <= weight(e) <= 3:
+                    raise RuntimeError("harness arithmetic broken (zero set)")
+                out.append((e, f"{mapname}:w{weight(e)}:{zs_name(mapname, Z)}"))
+        for S in pairs:
+            for k in range(3):
+                e = solve_pattern(S, [(rows[k], 0), (unit_row(S[rng.randrange(2)]), rng.choice((1, 255, rng.randrange(1, 256))))])
+                if mapname == "rem" and (e is None or weight(e) != 2):
+                    continue  # a pair that contains parity octet k (see above)
+                if e is None or weight(e) != 2 or apply_row(rows[k], e) != 0:
+                    raise RuntimeError("harness arithmetic broken (weight-2 pattern)")
+                out.append((e, f"{mapname}:w2:{zs_name(mapname, (k,))}"))
+    # distance 1 from the above: one octet changed (same support), one cleared, one more set / one moved
+    near = []
+    step = 1 if thorough else 2
+    for i in range(rng.randrange(step), len(out), step):
+        e, lab = out[i]
+        supp = [p for p in range(12) if e[p]]
+        how = rng.randrange(4)
+        f = bytearray(e)
+        p = rng.choice(supp)
+        if how == 0:
+            f[p] ^= rng.choice([x for x in (1, 0x80, rng.randrange(1, 256), rng.randrange(1, 256)) if x != f[p]])
+            what = "one-octet-changed"
+        elif how == 1:
+            f[p] = 0
+            what = "one-octet-cleared"
+        elif how == 2 and len(supp) == 2:
+            f[rng.choice([q for q in range(12) if q not in supp])] = rng.randrange(1, 256)
+            what = "one-octet-added"
+        else:
+            q = rng.choice([q for q in range(12) if q not in supp])
+            f[q], f[p] = f[p], 0
+            what = "one-octet-moved"
+        if 1 <= weight(f) <= 3:
+            near.append((bytes(f), lab.split(":")[0] + ":near:" + what))
+    return out + near
+
+
+def target_patterns(rng, thorough, boost=1):
+    """(pattern, label): patterns of weight <= 3 whose image under either map is a value a wrong test for "all three
+    are zero" could let through: three equal octets, all ones, a mask, single bits, sums/xors that cancel."""
+    out = []
+    triples = list(itertools.combinations(range(12), 3))
+    masks3 = [bytes.fromhex(h) for h in ("969696", "999999", "0f0f0f", "ffffff")]
+    for mapname, rows in LINMAPS:
+        targets = []
+        for v in range(1, 256):
+            targets.append(((v, v, v), "three-equal"))
+        for m in masks3:
+            targets.append((tuple(m), "equals-a-mask"))
+            targets.append((tuple(xor_b(m, masks3[0])) if m != masks3[0] else tuple(xor_b(m, masks3[1])), "xor-of-two-masks"))
+        for k in range(3):
+            for bit in range(8):
+                t = [0, 0, 0]
+                t[k] = 1 << bit
+                targets.append((tuple(t), "single-bit"))
+        for _ in range(24):
+            v, w = rng.randrange(1, 256), rng.randrange(1, 256)
+            targets += [((v, w, v ^ w), "xor-of-the-three-is-zero"), ((v, v, w), "two-equal"), ((v, w, w), "two-equal"), ((v, w, v), "two-equal"),
+                        ((v, gf_mul(v, v), gf_mul(v, gf_mul(v, v))), "geometric"), ((v, (v + 1) & 255 or 1, (v + 2) & 255 or 1), "arithmetic")]
+        for t, lab in targets:
+            for S in rng.sample(triples, 40 if thorough else 2 * boost):
+                e = solve_pattern(S, [(rows[k], t[k]) for k in range(3)])
+                if e is None:
+                    raise RuntimeError("harness arithmetic broken (target)")
+                if 1 <= weight(e) <= 3:
+                    out.append((e, f"{mapname}:target:{lab}"))
+    return out
+
+
+def prefix_patterns(rng, c_unmasked: bytes, n):
+    """(pattern, label): the first k octets of the corrupted (unmasked) word are a multiple of g — every running
+    value of a checker (Horner accumulators, LFSR register) is zero after k octets, the rest follows"""
+    out = []
+    for _ in range(n):
+        k = rng.randrange(4, 12)
+        S = sorted(rng.sample(range(k), 3))
+        rows = []
+        for j in (1, 2, 3):
+            r = gf_pow(ALPHA, j)
+            rows.append([gf_pow(r, k - 1 - p) if p < k else 0 for p in range(12)])
+        e = solve_pattern(S, [(rows[i], apply_row(rows[i], c_unmasked)) for i in range(3)])
+        if e is not None and 1 <= weight(e) <= 3:
+            if any(syndromes(xor_b(c_unmasked, e)[:k])):
+                raise RuntimeError("harness arithmetic broken (prefix)")
+            out.append((e, "prefix-is-a-multiple-of-g"))
+    return out
+
+
+def two_root_families():
+    """for each pair of roots and each position triple the generator (b0, b1, b2) of the 1-dimensional family of
+    weight-3 patterns vanishing at that pair (all 255 non-zero multiples are members, and there are no others);
+    for each single root and each position pair likewise for weight 2"""
+    fam3, fam2 = [], []
+    for Z in ((0, 1), (0, 2), (1, 2)):
+        k = ({0, 1, 2} - set(Z)).pop()
+        for S in itertools.combinations(range(12), 3):
+            e = solve_pattern(S, [(SYN_ROWS[z], 0) for z in Z] + [(SYN_ROWS[k], 1)])
+            if e is None or weight(e) != 3:
+                raise RuntimeError("harness arithmetic broken (two-root family)")
+            fam3.append((Z, S, tuple(e[p] for p in S)))
+    for k in range(3):
+        for S in itertools.combinations(range(12), 2):
+            e = solve_pattern(S, [(SYN_ROWS[k], 0), (unit_row(S[0]), 1)])
+            if e is None or weight(e) != 2:
+                raise RuntimeError("harness arithmetic broken (one-root family)")
+            fam2.append(((k,), S, tuple(e[p] for p in S)))
+    return fam3, fam2
+
+
+# ------------------------------------------------------------------------------------------------
+# words of OTHER codes: the same construction with another generator / primitive element / field / coefficient
+# order, and the mask on the wrong octets.  The verdict always comes from the syndromes at alpha^1..alpha^3.
+def field_ops(poly: int):
+    def mul(a, b):
+        r = 0
+        while b:
+            if b & 1:
+                r ^= a
+            b >>= 1
+            a <<= 1
+            if a & 0x100:
+                a ^= poly
+        return r
+
+    def pw(a, n):
+        r = 1
+        for _ in range(n):
+            r = mul(r, a)
+        return r
+
+    return mul, pw
+
+
+def word_with_roots(known: bytes, roots, poly=FIELD_POLY):
+    """known (12 - len(roots) octets) followed by the octets that make the word vanish at every root (field `poly`)"""
+    mul, pw = field_ops(poly)
+    n = len(roots)
+    U = list(range(12 - n, 12))
+    base = list(known) + [0] * n
+    M = []
+    for r in roots:
+        acc = 0
+        for x in base:
+            acc = mul(acc, r) ^ x
+        M.append([pw(r, 11 - p) for p in U] + [acc])
+    for c in range(n):  # Gauss-Jordan in the field `poly`
+        piv = next((i for i in range(c, n) if M[i][c]), None)
+        if piv is None:
+            return None
+        M[c], M[piv] = M[piv], M[c]
+        inv = pw(M[c][c], 254)
+        M[c] = [mul(inv, x) for x in M[c]]
+        for i in range(n):
+            if i != c and M[i][c]:
+                f = M[i][c]
+                M[i] = [x ^ mul(f, y) for x, y in zip(M[i], M[c])]
+    w = bytes(list(known) + [M[i][n] for i in range(n)])
+    for r in roots:
+        acc = 0
+        for x in w:
+            acc = mul(acc, r) ^ x
+        if acc:
+            raise RuntimeError("harness arithmetic broken (word_with_roots)")
+    return w
+
+
+def sibling_words(rng, std, n):
+    """(word, mask, label): n rounds over every sibling kind"""
+    out = []
+    a = lambda j: gf_pow(ALPHA, j % 255)  # noqa: E731
+    mulB, pwB = field_ops(0x11B)
+    root_sets = [
+        ("roots-a^0..a^2", [a(0), a(1), a(2)], FIELD_POLY), ("roots-a^2..a^4", [a(2), a(3), a(4)], FIELD_POLY),
+        ("roots-a^1,a^2,a^4", [a(1), a(2), a(4)], FIELD_POLY), ("roots-a^-1..a^-3", [a(-1), a(-2), a(-3)], FIELD_POLY),
+        ("roots-b^1..b^3(b=a^2)", [a(2), a(4), a(6)], FIELD_POLY), ("roots-b^1..b^3(b=3)", [3, gf_mul(3, 3), gf_mul(3, gf_mul(3, 3))], FIELD_POLY),
+        ("roots-2,4,8-in-field-0x11B", [2, 4, 8], 0x11B), ("roots-3^1..3^3-in-field-0x11B", [3, mulB(3, 3), pwB(3, 3)], 0x11B),
+        ("roots-2,4,8-in-field-0x12B", [2, 4, 8], 0x12B),
+        ("sub-code:roots-a^0..a^3(a code word)", [a(0), a(1), a(2), a(3)], FIELD_POLY), ("sub-code:roots-a^1..a^4(a code word)", [a(1), a(2), a(3), a(4)], FIELD_POLY),
+        ("super-code:roots-a^1,a^2", [a(1), a(2)], FIELD_POLY), ("super-code:roots-a^2,a^3", [a(2), a(3)], FIELD_POLY), ("super-code:roots-a^1,a^3", [a(1), a(3)], FIELD_POLY),
+        ("super-code:root-a^1", [a(1)], FIELD_POLY), ("super-code:root-a^3", [a(3)], FIELD_POLY),
+    ]
+    for _ in range(n):
+        style = rng.randrange(4)
+        for lab, roots, poly in root_sets:
+            k = 12 - len(roots)
+            known = bytes((0 if style == 1 and i < 4 else 255 if style == 2 and i % 2 else rng.randrange(256)) for i in range(k))
+            if not any(known):
+                known = bytes([1]) + known[1:]
+            w = word_with_roots(known, roots, poly)
+            if w is None:
+                continue
+            for m in std + [bytes(rng.randrange(256) for _ in range(3))]:
+                out.append((w[:9] + xor_b(w[9:], m), m, "other-code:" + lab))
+        d = bytes(rng.randrange(256) for _ in range(9))
+        cw = d + ref_parity(d)
+        for m in std + [bytes(rng.randrange(256) for _ in range(3)), bytes.fromhex("0096ff")]:
+            good = cw[:9] + xor_b(cw[9:], m)
+            rev = cw[::-1]
+            out.append((rev[:9] + xor_b(rev[9:], m), m, "order:whole-word-reversed"))
+            out.append((rev, m, "order:whole-word-reversed-and-masked-data"))
+            out.append((d[::-1] + good[9:], m, "order:message-reversed"))
+            out.append((good[9:] + good[:9], m, "order:parity-first"))
+            out.append((good[1:] + good[:1], m, "order:rotated-by-one"))
+            lowfirst = ref_parity(d)[::-1]
+            out.append((d + xor_b(lowfirst, m), m, "order:parity-low-coefficient-first"))
+            for off, lab in ((0, "octets-0..2"), (3, "octets-3..5"), (6, "octets-6..8"), (8, "octets-8..10")):
+                w = bytearray(cw)
+                for i in range(3):
+                    w[off + i] ^= m[i]
+                out.append((bytes(w), m, "mask:on-" + lab))
+            out.append((cw[:9] + xor_b(cw[9:], m[::-1]), m, "mask:reversed"))
+            out.append((cw[:9] + xor_b(cw[9:], m[1:] + m[:1]), m, "mask:rotated"))
+            out.append((cw[:9] + xor_b(cw[9:], bytes([m[0], 0, 0])), m, "mask:first-octet-only"))
+            out.append((cw[:9] + xor_b(cw[9:], bytes([0, 0, m[2]])), m, "mask:last-octet-only"))
+            out.append((xor_b(cw[:9], (m * 3)) + xor_b(cw[9:], m), m, "mask:on-every-octet"))
+            out.append((cw[:9] + xor_b(cw[9:], bytes(x ^ 255 for x in m)), m, "mask:complemented"))
+            out.append((cw[:9] + xor_b(cw[9:], bytes(((x << 4) | (x >> 4)) & 255 for x in m)), m, "mask:nibbles-swapped"))
+    return out
+
+
+# ------------------------------------------------------------------------------------------------
+# ambient interpreter state (the property says "always"): a fixed small sample is evaluated once more with the root
+# logger at DEBUG, with sys.stdout replaced by a writer that raises, with `random` reseeded before every call, in
+# one child interpreter started with -O (assert statements stripped) and in one fresh child interpreter in which the
+# first calls ever made on the class are malformed ones (error-path state).
+AMBIENTS = ("logging-debug", "stdout-raises", "random-reseeded")
+
+
+class _RaisingWriter:
+    def write(self, *_a):
+        raise OSError("stdout is closed")
+
+    def flush(self):
+        raise OSError("stdout is closed")
+
+
+def with_ambient(mode, fn):
+    import logging
+    import random as _random
+    import sys
+
+    if mode == "logging-debug":
+        root = logging.getLogger()
+        old, oldh = root.level, list(root.handlers)
+        nh = logging.NullHandler()
+        root.addHandler(nh)
+        root.setLevel(logging.DEBUG)
+        try:
+            return fn()
+        finally:
+            root.setLevel(old)
+            root.removeHandler(nh)
+            root.handlers[:] = oldh
+    if mode == "stdout-raises":
+        old = sys.stdout
+        sys.stdout = _RaisingWriter()
+        try:
+            return fn()
+        finally:
+            sys.stdout = old
+    if mode == "random-reseeded":
+        st = _random.getstate()
+        _random.seed(0)
+        try:
+            return fn()
+        finally:
+            _random.setstate(st)
+    return fn()
+
+
+def eval_item(R, it):
+    """one sample item {"op": "generate"|"detect"|"word", ...hex} -> None | (what, expected, actual)"""
+    if it["op"] == "generate":
+        return eval_generate(R, bytes.fromhex(it["data"]), bytes.fromhex(it["mask"]))
+    if it["op"] == "detect":
+        return eval_detect(R, bytes.fromhex(it["data"]), bytes.fromhex(it["mask"]), bytes.fromhex(it["error"]))
+    return eval_word(R, bytes.fromhex(it["word"]), bytes.fromhex(it["mask"]))
+
+
+CHILD_MODES = {
+    "python -O": ["-O"],  # assert statements stripped
+    "fresh interpreter, first calls malformed": [],  # the first calls ever made on the class are ones that fail
+}
+
+
+def run_child(items, mode="python -O"):
+    """evaluate the items in a child interpreter; -> list of (index, what, expected, actual) | str (infrastructure)"""
+    import json
+    import sys
+
+    flags = CHILD_MODES[mode]
+
+    here = os.path.dirname(os.path.abspath(__file__))
+    code = (
+        "import sys, json\n"
+        f"sys.path.insert(0, {os.path.dirname(here)!r}); sys.path.insert(0, {here!r})\n"
+        "import c11\n"
+        "assert_on = False\n"
+        "try:\n    assert False\nexcept AssertionError:\n    assert_on = True\n"
+        "R = c11.rs()\n"
+        "src = sys.modules[R.__module__].__file__\n"
+        f"first_bad = {('-O' not in flags)!r}\n"
+        "if first_bad:\n"
+        "    for f, a in ((R.check, (b'\\x00' * 11, b'\\x00' * 3)), (R.generate, (b'', b'')), (R.generate, (None, None)), (R.check, (b'\\x00' * 13, b'\\x01')), (R.log_multiply, (256, 256))):\n"
+        "        try:\n            f(*a)\n        except BaseException:\n            pass\n"
+        "items = json.load(sys.stdin)\n"
+        "out = []\n"
+        "for i, it in enumerate(items):\n"
+        "    r = c11.eval_item(R, it)\n"
+        "    if r is not None:\n        out.append([i, r[0], r[1], r[2]])\n"
+        "sys.stdout.write(json.dumps({'assert_on': assert_on, 'src': src, 'fails': out}))\n"
+    )
+    try:
+        p = subprocess.run([sys.executable] + flags + ["-c", code], input=json.dumps(items), capture_output=True, text=True, timeout=300)
+        res = json.loads(p.stdout)
+    except Exception as ex:  # noqa
+        return f"child interpreter did not answer: {type(ex).__name__}"
+    if res.get("assert_on") == ("-O" in flags):
+        return "child interpreter: assertions are not in the expected state"
+    if res.get("src") != sys.modules[rs().__module__].__file__:
+        return f"child interpreter imported another copy of the module ({res.get('src')})"
+    return [tuple(x) for x in res["fails"]]
+
+
+# ------------------------------------------------------------------------------------------------
 def rs():
     from okdmr.dmrlib.etsi.fec.reed_solomon_12_9_4 import ReedSolomon1294
 
@@ -387,6 +826,8 @@ CORPUS = [
     ("03000003d4752635a960e206", "TerminatorWithLC"),
     ("0300002635a903d475c4889a", "TerminatorWithLC"),
 ]
+# error patterns of weight 3 that vanish at two of the three roots (captured from a trial in which alpha^3 was not tested)
+PATTERN_CORPUS = ["0000010000004d0069000000"]
 
 
 # ------------------------------------------------------------------------------------------------
@@ -765,7 +1206,17 @@ def run(ctx):
         "messages whose parity / transmitted FEC field hits 000000, ffffff, the mask, another mask, a constant, or equals message octets, "
         "minimum-weight (4) code words on prescribed supports, messages whose LFSR register takes a prescribed value (zero, ff, zero components) "
         "after i octets; received words that only look like these (bare mask / constants / message octets in the FEC field, permuted parity, "
-        "patterns, weight-4 code words with octets cleared). Histories (scripts of generate / check / edit-in-place steps, six templates plus one "
+        "patterns, weight-4 code words with octets cleared). Super-codes (a checker that passes a SUBSET of the checks accepts the low-weight words "
+        "of a larger code, which random corruption never meets): on words returned by the real generate (captured, zero, random, zero-parity; the two standard "
+        "masks, zero, ff, two others) error patterns SOLVED with the harness's linear algebra — for each of the 220 position triples and each proper subset of "
+        "the roots {a, a^2, a^3} a weight-3 pattern vanishing exactly there, for each of the 66 pairs and each root a weight-2 pattern vanishing there, the same for "
+        "the three octets of the re-encoding difference parity(e[:9])^e[9:] (what a regenerate-and-compare checker sees), near misses at distance 1 of all those "
+        "(octet changed / cleared / added / moved), patterns whose syndromes / re-encoding difference take a value a wrong zero test lets through (three equal octets for every "
+        "value, a mask, xor of two masks, single bits, two equal, xor zero, geometric, arithmetic), patterns that make a prefix of the word a multiple of g; and COMPLETELY, in both "
+        "tiers, the weight-3 words of the three 2-root super-codes (3 x 220 x 255) and the weight-2 words of the three 1-root super-codes (3 x 66 x 255). Words of other codes through "
+        "check (generator roots a^0..2, a^2..4, a^1,2,4, a^-1..-3, another primitive element, field polynomials 0x11B / 0x12B, 4-root sub-codes = code words, 1-/2-root super-codes; "
+        "whole word / message / parity in another order; the mask on other octets, reversed, rotated, partial, complemented). A fixed sample (generate, detect on super-code patterns, check) "
+        "once more with the root logger at DEBUG, sys.stdout raising, random reseeded, in a child interpreter started with -O and in a fresh child interpreter whose first calls on the class are malformed ones. Histories (scripts of generate / check / edit-in-place steps, six templates plus one "
         "session holding >= 160 results): arguments as bytes / bytearray (list, tuple, memoryview where the code accepts them), positional / "
         "keyword / default-mask calls, the returned word edited in place in 1..3 octets and asked again, the caller's own argument buffers edited "
         "after the call, one buffer checked with changing contents, related requests (same message other mask, same prefix, one octet changed) all "
@@ -1007,6 +1458,147 @@ def run(ctx):
         if r is not None:
             ctx.fail("check-exact", {"word": hex_str(w), "mask": hex_str(m), "class": lab}, r[0], expected=r[1], actual=r[2])
 
+    # ------------------------------------------------------------------ super-codes: a checker that passes a SUBSET of the checks
+    # Generated words (by the real generate) corrupted by patterns of weight 1..3 that were SOLVED FOR: they meet a
+    # proper subset of the conditions that define the code (vanish at one or two of the three roots; the re-encoding
+    # difference is zero in one or two of its three octets), or their syndromes / re-encoding difference take a value a
+    # wrong zero test lets through.  The verdict is the property's: every corruption of 1..3 octets is rejected.
+    hosts = []  # (message, mask, word returned by the real generate)
+    host_msgs = [(bytes.fromhex(hx)[:9], mask_by_name[mname]) for hx, mname in CORPUS[:2]]
+    host_msgs += [(bytes(9), zero)]  # the zero word: the corrupted word IS the pattern
+    for m in all_masks + [b"\xff\xff\xff", bytes(rng.randrange(256) for _ in range(3)), bytes.fromhex("0096ff"), bytes.fromhex("ff0096"), bytes.fromhex("969900")]:
+        host_msgs.append((bytes(rng.randrange(256) for _ in range(9)), m))
+        host_msgs.append((rng.choice(alg)[0], m))
+    for d, m in host_msgs:
+        c = call(R.generate, d, m)
+        if isinstance(c, str) or len(bytes(c)) != 12:
+            continue  # reported by eval_generate above
+        hosts.append((d, m, bytes(c)))
+    by_mask = {}
+    for h in hosts:
+        by_mask.setdefault(h[1], []).append(h)
+    host_masks = list(by_mask)
+    n_sub = 0
+
+    listed = {}
+
+    def undetected(d, m, e, lab, k):
+        # the first three of every class are listed (a 2-root checker accepts 168,300 of the patterns below)
+        listed[lab] = listed.get(lab, 0) + 1
+        if listed[lab] <= 3 and sum(min(v, 3) for v in listed.values()) <= 60:
+            ctx.fail("detect", {"data": hex_str(d), "mask": hex_str(m), "error": hex_str(e), "class": lab},
+                     f"corruption of {weight(e)} octet(s) of a generated word is not detected (pattern class: {lab})", expected=False, actual=out_chk(k))
+        else:
+            ctx.count("super-code:undetected-not-listed")
+
+    def corrupt(d, m, c, e, lab):
+        w = xor_b(c, e)
+        k = call(R.check, w, m)
+        chk_pairs.append((f"rs.check {hex_str(w)} {hex_str(m)}", out_chk(k)))
+        ctx.case(("detect", d, m, e), nontrivial=True)
+        if k is not False:
+            undetected(d, m, e, lab, k)
+
+    spec_pairs = []  # the oracle's own arithmetic against the specification side of the Lean model (no code involved)
+
+    def spec_lines(e, m):
+        s3 = syndromes(e)
+        spec_pairs.append((f"rs.syn {hex_str(e)}", " ".join(str(x) for x in s3)))
+        for js in ("12", "13", "23", "1", "123"):
+            w = bytes(e[:9]) + xor_b(bytes(e[9:]), m)  # the pattern on top of the zero code word, under the mask
+            spec_pairs.append((f"rs.checkroots {js} {hex_str(w)} {hex_str(m)}", "0" if any(s3[int(ch) - 1] for ch in js) else "1"))
+
+    if hosts:
+        pats = [(bytes.fromhex(h), "corpus") for h in PATTERN_CORPUS]
+        pats += subcode_patterns(rng, ctx.thorough()) + target_patterns(rng, ctx.thorough(), ctx.boost)
+        for i, (e, lab) in enumerate(pats):
+            if not 1 <= weight(e) <= 3:
+                raise RuntimeError("harness arithmetic broken (pattern weight)")
+            ctx.count("super-code:" + lab)
+            if i % 4 == 0:
+                spec_lines(e, host_masks[i % len(host_masks)])
+            # under every mask the standard defines and the default, plus one of the other masks in turn; the host word rotating
+            extra = [m for m in host_masks if m not in all_masks]
+            for mi, m in enumerate([m for m in all_masks if m in by_mask] + extra[i % len(extra): i % len(extra) + 1] if extra else host_masks):
+                hs = by_mask[m]
+                d, _, c = hs[(i + mi) % len(hs)]
+                corrupt(d, m, c, e, lab)
+                n_sub += 1
+        for d, m, c in hosts:
+            for e, lab in prefix_patterns(rng, unmask(c, m), ctx.budget(12, 120)):
+                ctx.count("super-code:" + lab)
+                corrupt(d, m, c, e, lab)
+        # the complete low-weight part of the three 2-root super-codes (3 x 220 x 255 patterns of weight 3) and of the
+        # three 1-root super-codes (3 x 66 x 255 patterns of weight 2): every member once, hosts and masks rotating
+        MUL = [[gf_mul(t, b) for b in range(256)] for t in range(256)]
+        fam3, fam2 = two_root_families()
+        chk = R.check
+        n = 0
+        for Z, S, base in fam3 + fam2:
+            lab = "syn:family:" + ("w3:" if len(S) == 3 else "w2:") + zs_name("syn", Z)
+            d, m, c = hosts[n % len(hosts)]
+            n += 1
+            for t in range(1, 256):
+                row = MUL[t]
+                wb = bytearray(c)
+                for p, b in zip(S, base):
+                    wb[p] ^= row[b]
+                w = bytes(wb)
+                try:
+                    k = chk(w, m)
+                except BaseException as ex:  # noqa
+                    k = impl_error(ex)
+                if t % 16 == n % 16:
+                    chk_pairs.append((f"rs.check {hex_str(w)} {hex_str(m)}", out_chk(k)))
+                ctx.case(("detect-family", n, t), nontrivial=True)
+                if k is not False:
+                    undetected(d, m, xor_b(w, c), lab, k)
+            ctx.count("super-code:" + lab, 255)
+        ctx.count("super-code:checks", n_sub)
+
+    # words of other codes (another generator / primitive element / field, another coefficient order, the mask on the
+    # wrong octets, 4-root sub-codes — these ARE code words —, 1- and 2-root super-codes)
+    for w, m, lab in sibling_words(rng, all_masks, ctx.budget(6, 60)):
+        k = chk_line(w, m)
+        ctx.case(("word", w, m))
+        ctx.count("word:" + lab)
+        if lab.startswith("other-code:sub-code") and any(syndromes(unmask(w, m))):
+            raise RuntimeError("harness arithmetic broken (sub-code word)")
+        r = eval_word(R, w, m)
+        if r is not None:
+            ctx.fail("check-exact", {"word": hex_str(w), "mask": hex_str(m), "class": lab}, r[0], expected=r[1], actual=r[2])
+
+    # ------------------------------------------------------------------ ambient interpreter state
+    sample = []
+    for d, m, _c in hosts[:6]:
+        sample.append({"op": "generate", "data": hex_str(d), "mask": hex_str(m)})
+    if hosts:
+        for i, (Z, S, base) in enumerate(fam3[:: max(1, len(fam3) // 120)] + fam2[:: max(1, len(fam2) // 40)]):
+            d, m, c = hosts[i % len(hosts)]
+            t = 1 + (i * 37) % 255
+            e = bytearray(12)
+            for p, b in zip(S, base):
+                e[p] = MUL[t][b]
+            sample.append({"op": "detect", "data": hex_str(d), "mask": hex_str(m), "error": hex_str(bytes(e))})
+        for d, m, c in hosts:
+            sample.append({"op": "word", "word": hex_str(c), "mask": hex_str(m)})
+            sample.append({"op": "detect", "data": hex_str(d), "mask": hex_str(m), "error": hex_str(rand_error(rng, rng.randrange(1, 4)))})
+    for mode in AMBIENTS:
+        for it in sample:
+            r = with_ambient(mode, lambda: eval_item(R, it))
+            ctx.case(("ambient", mode, repr(it)), nontrivial=True)
+            if r is not None:
+                ctx.fail("ambient", {"ambient": mode, "item": it}, r[0] + f" (ambient state: {mode})", expected=r[1], actual=r[2])
+        ctx.count("ambient:" + mode, len(sample))
+    for mode in (CHILD_MODES if sample else ()):
+        res = run_child(sample, mode)
+        if isinstance(res, str):
+            ctx.notes.append(f"ambient {mode}: {res} (no verdict)")
+        else:
+            ctx.count(f"ambient:child interpreter ({mode})", len(sample))
+            for i, what, exp, act in res[:5]:
+                ctx.fail("ambient", {"ambient": mode, "item": sample[i]}, what + f" (in a child interpreter: {mode})", expected=exp, actual=act)
+
     # ------------------------------------------------------------------ linearity of the encoder
     for _ in range(ctx.budget(200, 3000)):
         a = bytes(rng.randrange(256) for _ in range(9))
@@ -1085,6 +1677,9 @@ def run(ctx):
     if not ctx.search_only and ctx.driver_ok:
         ctx.correspond("generate", gen_pairs)
         ctx.correspond("check", chk_pairs)
+        if ctx.lean.get("build_ok") and not ctx.lean.get("failed") and not ctx.lean.get("extract_errors"):
+            # syndromes and root-subset checkers: harness arithmetic vs the Lean definitions the theorems are about
+            ctx.correspond("specification(syndromes, root-subset checker: oracle arithmetic vs Lean)", spec_pairs)
         outs = ctx.drive([ln for _, ln, _ in ood])
         ndiff = 0
         for (comp, ln, impl), model in zip(ood, outs):
@@ -1152,6 +1747,15 @@ def replay(obj):
         r = eval_linear(R, bytes.fromhex(inp["a"]), bytes.fromhex(inp["b"]))
     elif kind == "homogeneity":
         r = eval_scale(R, bytes.fromhex(inp["a"]), int(inp["s"]))
+    elif kind == "ambient":
+        it, mode = inp["item"], inp["ambient"]
+        print(f"ambient state: {mode}; item {it}")
+        if mode in CHILD_MODES:
+            res = run_child([it], mode)
+            print(f"child interpreter: {res}")
+            r = None if (isinstance(res, str) or not res) else res[0][1:]
+        else:
+            r = with_ambient(mode, lambda: eval_item(R, it))
     elif kind == "history":
         res = run_script(R, inp["steps"])
         for i, st in enumerate(inp["steps"]):
